@@ -186,7 +186,7 @@ func VerifC15(args []string) {
 			conf.VariableKeyMap[name] = VariableKey(k)
 			k++
 		}
-		for _, o := range optimizations {
+		for _, o := range vfOptimizations {
 			conf.CompileOptions[o] = false
 		}
 		conf.CompileOptions[InfixNotation] = infix
